@@ -305,6 +305,23 @@ func genC02(c *Ctx) {
 			}
 		}
 	}
+	// generated time subtitles (stpp and wvtt AdaptationSets added by the URL configuration): monitor only — the MPD
+	// model does not carry them; the declared subtitle segments are fetched like all others
+	for ai := range vAssets {
+		a := &vAssets[ai]
+		ref := refRepOf(a)
+		if ref == nil || ref.ContentType != "video" || len(a.MPDs) == 0 {
+			continue
+		}
+		for _, cf := range []cfgVar{mkCfg(0, 60, 0, 0, "n"), mkCfg(0, 30, 0, 0, "tlt"), mkCfg(61, 60, 3, 0, "tln"), mkCfg(61, 10, 0, 0, "n")} {
+			cf.s = strings.TrimPrefix(cf.s+",timesubsstpp=en,timesubswvtt=sv", "-,")
+			for _, now := range pickInstants(c, a, cf, c.N(2, 10)) {
+				line := fmt.Sprintf("# mpd %s %s %s %d", a.AssetPath, cf.s, a.MPDs[0], now)
+				c.Count("timesubs-mpd")
+				c02Monitor(c, a, a.MPDs[0], cf, now, line)
+			}
+		}
+	}
 }
 
 // c02Monitor: every declared segment is served with the declared time/duration/number; the one after the edge is 425;
